@@ -87,6 +87,7 @@ def mk(kind, mode):
 BARE = ("any_e", "any_i", "int_e", "list_i", "event_e", "str_n")
 
 
+BOTH = ("int_n", "any_e", "float_i", "event_e")       # traits whose class defines BOTH _<name>_changed and _<name>_fired
 MAGIC = ("int_e", "any_n", "str_i")        # names whose `_<name>_changed` in the base class is an @observe-decorated method
 
 
@@ -116,6 +117,12 @@ def build(raisers, log, bare=False, sub=False, magic=False):
                     raise RuntimeError("boom")
             return static
         ns["_%s_%s" % (nm, "fired" if kind in ("Event", "CEvent") else "changed")] = mkstatic(nm)
+        if nm in BOTH:
+            def mkstatic2(nm):
+                def static2(self, name, old, new):
+                    log.append(("static2", nm, old, new))
+                return static2
+            ns["_%s_%s" % (nm, "changed" if kind in ("Event", "CEvent") else "fired")] = mkstatic2(nm)
 
     def anyt(self, name, old, new):
         if name in NAMES:
@@ -156,6 +163,7 @@ def strategy(tier):
         "bare": st.sampled_from([False, False, True]),
         "sub_defaults": st.sampled_from([False, False, True]),
         "magic": st.sampled_from([False, False, True]),
+        "wildcard_observer": st.booleans(),
         "ops": st.lists(op_strategy(), min_size=1, max_size=30),
     })
 
@@ -193,6 +201,14 @@ def run(case, ctx):
             continue
         o.on_trait_change(otc, nm)
         o.observe(obs, nm)
+
+    def obs_any(e):
+        if e.name in NAMES:
+            log.append(("obsany", e.name, e.old, e.new))
+    wild = bool(case.get("wildcard_observer"))
+    if wild:
+        o.observe(obs_any, "*")          # an observer matching EVERY trait of the object
+        ctx.label("wildcard-observer")
     ol = case.get("object_level")
     ol_state = {"first_alive": True}
     if ol:
@@ -280,6 +296,10 @@ def run(case, ctx):
             mechs = () if (bare and nm in BARE) else ("static", "otc", "obs") if bare else ("static", "any", "otc", "obs")
             if magic and nm in MAGIC:
                 mechs = tuple("magic" if m == "static" else m for m in mechs)
+            if nm in BOTH and "static" in mechs:
+                mechs = mechs + ("static2",)
+            if wild:
+                mechs = mechs + ("obsany",)
             if set(by) - set(mechs):
                 ctx.fail("count/unregistered-mechanism", "handlers %r were called but are not registered for %s: %s" % (sorted(by), nm, what))
             counts = {m: len(by.get(m, [])) for m in mechs}
